@@ -27,6 +27,20 @@ if [ $applies = 1 ]; then
   echo "== existing suite with the change" >>"$LOG"
   cargo nextest run --workspace --no-fail-fast --retries 2 --test-threads 8 --offline -E 'not test(test_full_split_execution)' >"$D/suite.log" 2>&1; suite_rc=$?
   summary=$(grep -E "^\s+Summary" "$D/suite.log" | tail -1)
+  if [ $suite_rc != 0 ]; then
+    # tests that failed under machine load are re-run alone, single-threaded; the suite counts as
+    # passing only if every one of them passes then
+    failed=$(grep -E "^\s+(FAIL|TIMEOUT|SIGABRT|SIGSEGV) " "$D/suite.log" | sed -E 's/.*\) +//' | awk '{print $NF}' | sort -u)
+    if [ -n "$failed" ]; then
+      ok_all=1
+      for t in $failed; do
+        name=${t##*::}
+        echo "== re-running $t alone" >>"$LOG"
+        cargo nextest run --workspace --offline --test-threads 1 -E "test(=$name) | test(/::$name\$/)" >>"$LOG" 2>&1 || ok_all=0
+      done
+      if [ $ok_all = 1 ]; then suite_rc=0; summary="$summary; failing tests passed when re-run alone: $(echo $failed | tr '\n' ' ')"; fi
+    fi
+  fi
   grep -E "^\s+(FAIL|TIMEOUT|SIGABRT|SIGSEGV)" "$D/suite.log" | sort -u | head -20 >>"$LOG"
   echo "$summary" >>"$LOG"
   tail -c 20000 "$D/suite.log" > "$D/suite.tail.log"; rm -f "$D/suite.log"
